@@ -155,6 +155,85 @@ def guard_rule(chk, db):
         chk.analysis_broken("GUARD: only %d span/mdspan operations matched the contract table" % n)
 
 
+EXTENTS = "etl::extents"
+
+
+def dynslot_rule(chk, db):
+    """DYNSLOT: etl::extents stores one slot per *dynamic* extent. (a) An access `_extents[_dynamic_index(i)]` is dominated
+    by a test that this type's own static_extent(i) is dynamic_extent (a test on another object's pattern selects the
+    wrong slots). (b) A bulk copy into `_extents` happens only where the number of values is known to be rank_dynamic()."""
+    from ..rules import sets as SP
+    fs = [f for f in db.funcs if f.get("record") == EXTENTS and f.get("body") is not None]
+    if not fs:
+        chk.analysis_broken("DYNSLOT: etl::extents no longer exists")
+        return
+    n = 0
+
+    def own_dynamic_test(c, taken, env=None):
+        """cond establishes static_extent(x) == dynamic_extent for this type"""
+        env = env or {}
+        c = astx.strip_casts(c)
+        if c is None:
+            return None
+        if c.get("k") == "un" and c["op"] == "!":
+            return own_dynamic_test(c["e"], not taken, env)
+        if c.get("k") == "bin" and c["op"] in ("==", "!="):
+            sides = [astx.strip_casts(c["l"]), astx.strip_casts(c["r"])]
+            sides = [astx.strip_casts(env[x["n"]]) if x is not None and x.get("k") == "ref" and x.get("n") in env else x for x in sides]
+            call = [x for x in sides if x is not None and x.get("k") == "call" and astx.callee(x)[0] == "static_extent"]
+            dyn = [x for x in sides if x is not None and x.get("k") == "ref" and x.get("n") == "dynamic_extent"]
+            if len(call) == 1 and len(dyn) == 1:
+                recv = astx.callee(call[0])[2]
+                own = astx.callee(call[0])[3] != "member" or astx.is_this(recv)
+                holds = (c["op"] == "==") == taken
+                return ("own" if own else "other", holds)
+        return None
+
+    for f in fs:
+        uses_slot = any(x.get("k") == "call" and astx.callee(x)[0] == "_dynamic_index" for x in astx.all_exprs(f))
+        bulk = [x for x in astx.all_exprs(f) if x.get("k") == "call" and astx.callee(x)[0] in ("transform", "copy", "copy_n", "move", "fill")
+                and any("_extents" in astx.show(a, 40) for a in x["a"])]
+        if f["n"] in ("_dynamic_index", "_dynamic_index_inv") or not (uses_slot or bulk):
+            continue
+        construct = astx.sig(f)
+        n += 1
+        chk.instance("DYNSLOT")
+        bad = None
+        for p in SP.paths(f["body"]):
+            own_dyn = False
+            other_dyn = False
+            counted = False
+            env = {}
+            for ev in p:
+                if ev[0] == "decl" and ev[1].get("init") is not None:
+                    env[ev[1]["n"]] = ev[1]["init"]
+                if ev[0] == "cond":
+                    r = own_dynamic_test(ev[1], ev[2], env)
+                    if r is not None and r[1]:
+                        if r[0] == "own":
+                            own_dyn = True
+                        else:
+                            other_dyn = True
+                    txt = astx.show(ev[1], 80).replace(" ", "")
+                    if ev[2] and ("==rank_dynamic()" in txt or "rank_dynamic()==" in txt) and "!=" not in txt:
+                        counted = True
+                for e in SP.event_exprs(ev):
+                    for x in astx.walk_expr(e, into_lambdas=True):
+                        if x.get("k") == "idx" and "_extents" in astx.show(x["b"], 30) and any(
+                                y.get("k") == "call" and astx.callee(y)[0] == "_dynamic_index" for y in astx.walk_expr(x["i"])):
+                            if not own_dyn and bad is None:
+                                bad = (x, "`%s` is reached without a test that this type's static_extent is dynamic_extent%s" % (
+                                    astx.show(x, 50), " (the test on the path inspects another object's pattern)" if other_dyn else ""))
+                        if any(x is b for b in bulk) and not counted and bad is None:
+                            bad = (x, "`%s` copies as many values as the argument holds into the %s dynamic slots; the constructor is also "
+                                      "enabled for rank() values" % (astx.show(x, 60), "rank_dynamic()"))
+        chk.obligation("DYNSLOT", construct, bad is None)
+        if bad:
+            chk.violation("DYNSLOT", construct, "dynamic-slot", "%s: %s" % (astx.loc(f, bad[0]), bad[1]), {"where": astx.loc(f)})
+    if n < 3:
+        chk.analysis_broken("DYNSLOT: only %d members of etl::extents touch the dynamic slots (floor 3)" % n)
+
+
 def run(chk, tier):
     db = D.load("checks")
     plain = D.load("plain")
@@ -163,6 +242,7 @@ def run(chk, tier):
     sub_rule(chk, plain, table)
     mirror_rule(chk, db)
     guard_rule(chk, db)
+    dynslot_rule(chk, db)
     rel.check(chk, db, ["_array/array.hpp", "_mdspan/layout_left.hpp", "_mdspan/layout_right.hpp", "_linalg/layout_transpose.hpp"])
     tus, info = gen.generate(tier == "quick")
     res = wit.compile_many(tus, compiler="g++", jobs=16)
